@@ -37,6 +37,30 @@ def binaries_on_corpus(ctx, gdir, thorough):
     return n
 
 
+def run_resilient(ctx, tag, args, timeout=6000):
+    """lc.run_harness, but an unrecoverable crash of the in-process harness (stack overflow, concurrent map write: Go cannot
+    recover from these) is a verdict about the checker on the stack; the run is repeated without that checker."""
+    import json
+    excluded = []
+    for attempt in range(5):
+        trace = ctx.path("traces", "%s_%d.ndjson" % (tag, attempt))
+        out = ctx.path("traces", "%s_%d.json" % (tag, attempt))
+        a = ["lifecycle", "-trace", trace, "-out", out, "-seed", str(ctx.seed)] + args + (["-exclude", ",".join(excluded)] if excluded else [])
+        r = ctx.run_vh(a, timeout=timeout, check=False)
+        if r.returncode == 0 and os.path.exists(out):
+            res = json.load(open(out))
+            res["nonconf"] = res.get("nonconf") or []
+            return res, trace
+        m = re.search(r"fatal error: ([^\n]*)", r.stderr)
+        c = re.search(r"go-critic/checkers\.\(\*(\w+?)Checker\)\.(\w+)", r.stderr)
+        if not m or not c or c.group(1) in excluded:
+            raise vlib.Infra("harness failed (rc=%d): vh %s\n%s" % (r.returncode, " ".join(a), r.stderr[-4000:]))
+        excluded.append(c.group(1))
+        ctx.fail("Fatal %s" % c.group(1), "checker %s kills the process (%s) in %s; corpus %s" % (c.group(1), m.group(1), c.group(2), tag),
+                 {"cmd": "vh " + " ".join(a), "stderr_head": r.stderr[:3000]})
+    raise vlib.Infra("harness keeps crashing: excluded %s" % excluded)
+
+
 def run(ctx):
     thorough = ctx.tier == "thorough"
     design = lc.design(ctx, [], coverage=False)
@@ -57,7 +81,7 @@ def run(ctx):
     first_trace = None
     samples = []
     for tag, args in plans:
-        res, trace = lc.run_harness(ctx, "c01_" + tag, args, timeout=6000)
+        res, trace = run_resilient(ctx, "c01_" + tag, args)
         first_trace = first_trace or trace
         e, s = lc.judge(ctx, res, trace)
         events += e
